@@ -8,6 +8,21 @@ import (
 
 const ProtocolVersion int64 = 3
 
+// maxNestedLevels is the nesting depth of arrays and maps up to which messages are decoded. The CBOR library's
+// default of 32 is reached by ordinary data: a plugin schema with four nested scopes in a signal's data schema
+// describes itself 34 levels deep and could not be read from the hello message, and step inputs and outputs of
+// recursive types nest as deep as the data is long.
+const maxNestedLevels = 65535
+
+// payloadDecMode decodes the payload of a runtime message.
+var payloadDecMode = func() cbor.DecMode {
+	decMode, err := cbor.DecOptions{MaxNestedLevels: maxNestedLevels}.DecMode()
+	if err != nil {
+		panic(err)
+	}
+	return decMode
+}()
+
 type HelloMessage struct {
 	Version int64 `cbor:"version"`
 	Schema  any   `cbor:"schema"`
